@@ -1,6 +1,6 @@
 (* C09 — property theorems only. *)
 From Coq Require Import List Bool NArith ZArith.
-From AV Require Import Gen.Consts Model.C09_Layout Model.C09_Validate Proofs.C09_Tree Proofs.C09_Accept Proofs.C09_Main Proofs.C09_GenTie.
+From AV Require Import Gen.Consts Model.C09_Layout Model.C09_Validate Model.C09_Gaps Model.C01_Access Proofs.C09_Tree Proofs.C09_Accept Proofs.C09_Main Proofs.C09_GenTie Proofs.C09_Refuted.
 Import ListNotations.
 
 (* A per-node implication between validators lifts to whole array trees of any shape and depth. *)
@@ -37,3 +37,38 @@ Theorem model_constants_match_source :
   Z.of_N max_inline_view_len = arrow_data_byte_view__MAX_INLINE_VIEW_LEN.
 Proof. exact tie_max_inline_view_len. Qed.
 Print Assumptions model_constants_match_source.
+
+(* ---- the hypothesis [covered] cannot be dropped: at the known gaps the transcribed validator accepts what the
+   specification rejects (witnesses in Proofs/C09_Refuted.v, decided by computation; the correspondence run
+   reports the same inputs against the real ArrayData::validate_full as KNOWN-FINDING F4 / F5) *)
+Theorem accept_implies_valid_struct_offset_refuted : exists a,
+  tree_all phys a = true /\ impl_validate_full a = true /\ spec_valid a = false /\
+  match p_ty a with TStruct _ => p_off a <> 0%nat | _ => False end.
+Proof. exact accept_implies_valid_struct_offset_refuted_w. Qed.
+Print Assumptions accept_implies_valid_struct_offset_refuted.
+
+Theorem accept_implies_valid_fixed_size_list_offset_refuted : exists a,
+  tree_all phys a = true /\ impl_validate_full a = true /\ spec_valid a = false /\
+  match p_ty a with TFixedList _ false _ => p_off a <> 0%nat | _ => False end.
+Proof. exact accept_implies_valid_fixed_size_list_offset_refuted_w. Qed.
+Print Assumptions accept_implies_valid_fixed_size_list_offset_refuted.
+
+Theorem accept_implies_valid_union_type_ids_refuted : exists a,
+  tree_all phys a = true /\ impl_validate_full a = true /\ spec_valid a = false /\
+  match p_ty a with TUnion _ _ => True | _ => False end.
+Proof. exact accept_implies_valid_union_type_ids_refuted_w. Qed.
+Print Assumptions accept_implies_valid_union_type_ids_refuted.
+
+(* the known-gap classifier names each witness (kinds 1, 2, 3 of Model/C09_Gaps.v), and every tree over the covered
+   types is outside the classifier: a gap node is never a covered node *)
+Theorem gap_nodes_are_not_covered : forall a k, gap_kind a = Some k -> k <> 0%Z -> covered a = false.
+Proof. exact gap_not_covered. Qed.
+Print Assumptions gap_nodes_are_not_covered.
+
+(* what the F4 gap costs downstream (C01): on the accepted struct witness, value(1) addresses child slot 2 of a
+   2-slot child — the slot does not exist (arrow-rs answers with a safe panic there, see known finding F4) *)
+Theorem accepted_struct_offset_addresses_missing_child_slot :
+  impl_validate_full w_struct_offset = true /\
+  forallb (child_slots_in_bounds w_struct_offset) (child_slots w_struct_offset 1) = false.
+Proof. exact (conj (proj1 (proj2 (gap_refutes _ (proj1 struct_offset_gap)))) struct_offset_child_slot_missing). Qed.
+Print Assumptions accepted_struct_offset_addresses_missing_child_slot.
